@@ -9,6 +9,7 @@ import (
 	"fmt"
 	"strings"
 	"sync"
+	"sync/atomic"
 
 	"pgregory.net/rapid"
 
@@ -268,7 +269,18 @@ func Observe(impl Map, m *Model, keys []int) string {
 	if err != nil || string(b) != sb.String() {
 		return fmt.Sprintf("MarshalJSON=%s (%v), want %s", b, err, sb.String())
 	}
+	lastJSON = b
 	return ""
+}
+
+// lastJSON is the slice returned by the MarshalJSON call of the latest successful Observe (the
+// caller may keep it: a result handed out must not change when the map is used again).
+var lastJSON []byte
+
+type keptJSON struct {
+	b    []byte
+	snap string
+	step int
 }
 
 // ---------------------------------------------------------------------------------------
@@ -300,7 +312,10 @@ func RunCase(t run.TB, c Case, everyStep bool) {
 		t.Fatalf("unknown map type %q", c.Type)
 	}
 	impl, m := f(), &Model{}
+	other := f() // a second map of the same type, used in between
+	other.Set(98, "other")
 	keys := []int{0, 1, 2, 3, 4, 5, 6, 7, 99}
+	var kept []keptJSON
 	var d string
 	func() {
 		defer func() {
@@ -317,6 +332,14 @@ func RunCase(t run.TB, c Case, everyStep bool) {
 				if d = Observe(impl, m, keys); d != "" {
 					d = fmt.Sprintf("after step %d %v: %s", i, o, d)
 					return
+				}
+				kept = append(kept, keptJSON{lastJSON, string(lastJSON), i})
+				other.MarshalJSON()
+				for _, k := range kept {
+					if string(k.b) != k.snap {
+						d = fmt.Sprintf("the bytes returned by MarshalJSON after step %d were %s; after step %d %v (and a MarshalJSON of another map) the same slice holds %s", k.step, k.snap, i, o, k.b)
+						return
+					}
 				}
 			}
 		}
@@ -456,6 +479,7 @@ func RandomOp(t *rapid.T) Op {
 func Concurrent(f func() Map, plans [][]Op) string {
 	impl := f()
 	var wg sync.WaitGroup
+	var bad atomic.Value
 	for _, plan := range plans {
 		plan := plan
 		wg.Add(1)
@@ -478,11 +502,17 @@ func Concurrent(f func() Map, plans [][]Op) string {
 				impl.Has(o.K)
 				impl.Get(o.K)
 				impl.EachSafe(func(int, string) {})
-				impl.MarshalJSON()
+				// the result is read (a reader of a buffer that went back to a pool races with its next user)
+				if b, err := impl.MarshalJSON(); err == nil && !json.Valid(b) {
+					bad.Store(string(b))
+				}
 			}
 		}()
 	}
 	wg.Wait()
+	if v := bad.Load(); v != nil {
+		return fmt.Sprintf("MarshalJSON during concurrent use returned a text that is not JSON: %s", v)
+	}
 	seen := map[int]int{}
 	n := 0
 	impl.EachSafe(func(k int, v string) { seen[k]++; n++ })
